@@ -484,3 +484,61 @@ def run_pairwise(facts, rep, files=None):
                                   "`%s`, and afterwards only the last element is read: the computed values never reach the "
                                   "result" % (arr[1], ctr[1], ctr[1], slack, arr[1], arr[1]), facts.loc(p, stores[0]))
     return n
+
+
+def narrow_shifts(facts, body):
+    """`(a << e) as WIDE` where the shift itself is performed in a narrower integer type than the cast target and the
+    amount is not a literal below that type's width: the shift overflows (debug: panic; release: amount taken modulo the
+    narrow width and the result sign-extended) before it is widened."""
+    W = {"i8": 8, "u8": 8, "i16": 16, "u16": 16, "i32": 32, "u32": 32, "i64": 64, "u64": 64, "usize": 64, "isize": 64,
+         "i128": 128, "u128": 128}
+    out = []
+    for x in walk(body):
+        if x.get("k") != "Cast":
+            continue
+        inner = strip(x["e"])
+        if inner.get("k") != "Bin" or inner.get("op") != "<<":
+            continue
+        tn, tw = facts.ty(inner), facts.ty(x)
+        if tn not in W or tw not in W or W[tn] >= W[tw]:
+            continue
+        amt = strip(inner["b"])
+        if amt.get("k") == "Lit":
+            m = re.match(r"^(\d+)", str(amt.get("v", "")))
+            if m and int(m.group(1)) < W[tn] - (1 if tn.startswith("i") else 0):
+                continue
+        out.append((x, tn, tw))
+    return out
+
+
+def run_narrow_shift(facts, rep, modules=None):
+    R = "R-CONTRA(shift)"
+    rep.rule(R, "no left shift is performed in a narrower integer type than the one its result is cast to, unless the amount is "
+             "a literal that fits the narrow type")
+    class _F:
+        def ty(self, n):
+            return n.get("T", "")
+    syn = {"k": "Cast", "T": "u64", "e": {"k": "Bin", "op": "<<", "T": "i32", "a": {"k": "Lit", "v": "1"},
+                                          "b": {"k": "Path", "res": "local", "lid": 1, "name": "k"}}}
+    if len(narrow_shifts(_F(), syn)) == 1:
+        rep.ok(R, "self-test", "the matcher recognises `(1 << k) as u64` with an i32 shift", "rules/r_contra.py", nontrivial=False)
+    else:
+        rep.violation(R, "self-test", "the narrow-shift matcher no longer recognises its positive example")
+    n = 0
+    for p in sorted(facts.hir):
+        it = facts.items[p]
+        if modules is not None and it.get("module") not in modules:
+            continue
+        body = facts.hir[p]
+        if not any(x.get("k") == "Bin" and x.get("op") == "<<" for x in walk(body)):
+            continue
+        n += 1
+        bad = narrow_shifts(facts, body)
+        if bad:
+            rep.fn(p)
+        for k, (x, tn, tw) in enumerate(bad):
+            rep.violation(R, "%s/#%d" % (p, k), "a left shift by a run-time amount is performed in `%s` and only then cast to `%s` "
+                          "(line %s): for amounts of %d or more it overflows — a panic in debug builds, the amount taken modulo "
+                          "%d and the result sign-extended in release builds" % (tn, tw, x.get("l"), 31 if tn == "i32" else 0,
+                                                                                 32 if tn == "i32" else 0), facts.loc(p, x))
+    return n
